@@ -1064,9 +1064,15 @@ class DateTime(datetime.datetime, Date):
         if unit not in ["month", "quarter", "year"]:
             raise ValueError(f'Invalid unit "{unit}" for first_of()')
 
-        dt = cast(
-            Optional["Self"], getattr(self._day(), f"_nth_of_{unit}")(nth, day_of_week)
-        )
+        try:
+            dt = cast(
+                Optional["Self"],
+                getattr(self._day(), f"_nth_of_{unit}")(nth, day_of_week),
+            )
+        except OverflowError:
+            # The occurrence would lie after the last supported date
+            dt = None
+
         if not dt:
             raise PendulumException(
                 f"Unable to find occurrence {nth}"
